@@ -558,6 +558,13 @@ pub fn gen_model(rng: &mut Rng) -> MpsModel {
         cnames[0] = "plain".into();
     }
     let mut rnames: Vec<String> = rn.iter().take(nrows).map(|s| s.to_string()).collect();
+    // rows named like the name a reader may derive for the second constraint of a ranged row
+    if rnames.len() >= 2 && rng.chance(1, 6) {
+        rnames[1] = format!("{}_", rnames[0]);
+        if rnames.len() >= 3 && rng.chance(1, 2) {
+            rnames[2] = format!("{}__", rnames[0]);
+        }
+    }
     if !rnames.is_empty() && rnames.iter().all(|n| n.starts_with("OMMX_CONSTR_")) {
         rnames[0] = "plainrow".into();
     }
